@@ -368,8 +368,11 @@ def prepare_inputs(base: Path, nmax: int) -> Path:
     """the (read-only, shared) input records t1..t<nmax>"""
     ind = Path(base) / "in"
     ind.mkdir(parents=True, exist_ok=True)
+    (ind / "alt").mkdir(exist_ok=True)
     for i in range(1, nmax + 1):
         (ind / f"{name_of(i)}.fasta").write_text(f">id\n{payload_of(i)}\n")
+        # another file whose identifier (name without format suffixes, get_unique_id) is the same
+        (ind / "alt" / f"{name_of(i)}.fasta").write_text(f">id\n{payload_of(i)}\n")
     return ind
 
 
